@@ -417,7 +417,10 @@ class BaseDriver:
             # perhaps this should not override already set port because we dont know if the user
             # provided the port or we just are accepting the default port value... in any case for
             # port, if it is in the ssh config file we will override whatever we currently have
+            # the transport has already been handed the port via the base transport args, so keep
+            # those in sync with what we report
             self.port = host_config.port
+            self._base_transport_args.port = host_config.port
         if host_config.user and not self.auth_username:
             self.logger.info(
                 f"found username for host in ssh configuration file, using this value "
